@@ -967,6 +967,24 @@ MULTI += [
         ControlFlow::Continue(())""")]),
  ("B.r12.member_count_flipped", ["C11"], "emitter/file/src/lib.rs", [
    ("    parts.split('.').count() == 3\n", "    let components = parts.split('.').count();\n    3 == components\n")]),
+ # ---- round 13 ----
+ ("B.r13.length_window_range_contains", ["C15"], "core/src/timestamp.rs", [
+   ("    if fmt.len() > 30 || fmt.len() < 20 {", "    if !(20..=30).contains(&fmt.len()) {")]),
+ ("B.r13.length_window_two_ifs", ["C15"], "core/src/timestamp.rs", [
+   ("    if fmt.len() > 30 || fmt.len() < 20 {\n        // Invalid length\n        return Err(ParseTimestampError {});\n    }",
+    "    if fmt.len() < 20 {\n        // Too short\n        return Err(ParseTimestampError {});\n    }\n\n    if 30 < fmt.len() {\n        // Too long\n        return Err(ParseTimestampError {});\n    }")]),
+ ("B.r13.leap_flag_direct", ["C15"], "core/src/timestamp.rs", [
+   ("                    leaps = rem / 4;\n                    rem %= 4;\n                    is_leap = rem == 0;", "                    leaps = rem / 4;\n                    is_leap = rem % 4 == 0;")]),
+ ("B.r13.reuse_sync_after_len", ["C10", "C11"], "emitter/file/src/lib.rs", [
+   ("        fs.sync_parent(file_path)?;\n\n        let file_size_bytes = file.len()?;", "        let file_size_bytes = file.len()?;\n\n        fs.sync_parent(file_path)?;")]),
+ ("B.r13.retention_loop_form", ["C11", "C08", "C10"], "emitter/file/src/lib.rs", [
+   ("        while self.file_set.len() >= max_files {\n            // With `max_files` of 0 (a configured maximum of 1) the set may already be empty\n            let Some(file_name) = self.file_set.pop() else {\n                break;\n            };",
+    "        loop {\n            if self.file_set.len() < max_files {\n                break;\n            }\n\n            // With `max_files` of 0 (a configured maximum of 1) the set may already be empty\n            let Some(file_name) = self.file_set.pop() else {\n                break;\n            };")]),
+ ("B.r13.grpc_header_status_named", ["C12"], "emitter/otlp/src/client.rs", [
+   ("                            let mut status = res\n                                .header(\"grpc-status\")\n                                .and_then(|v| v.parse().ok())\n                                .unwrap_or(0);",
+    "                            let header_status = res.header(\"grpc-status\");\n                            let mut status = match header_status.and_then(|v| v.parse().ok()) {\n                                Some(status) => status,\n                                None => 0,\n                            };")]),
+ ("B.r13.hole_value_write_macro", ["C16"], "core/src/template.rs", [
+   ("        // flags the caller is formatting the template with to each hole\n        self.write_fmt(format_args!(\"{}\", value))", "        // flags the caller is formatting the template with to each hole\n        write!(self, \"{}\", value)")]),
 ]
 
 # Behaviour-preserving edits the checks are KNOWN to alarm on (documented limitation, DESIGN.md section 8.1): the step is moved into a
